@@ -5,8 +5,10 @@ package ipfilter
 import (
 	"encoding/json"
 	"fmt"
+	"io"
 	"math/big"
 	"net"
+	"runtime/debug"
 	"strings"
 	"testing"
 
@@ -139,6 +141,41 @@ func c05B(b bool) int {
 		return 1
 	}
 	return 0
+}
+
+// c05Guarded runs one case so that even a fatal runtime error (stack overflow in the
+// prefix trie: not recoverable) leaves a concrete case in the trace: a provisional
+// record "everything crashed" is written and flushed first, and replaced by the real
+// record once the case has returned.
+func c05Guarded(out *vfOut, c vfCase, in *c05In) {
+	c05Oracle(in)
+	crash := c05Obs{Allow: make([][]int, len(in.Filters)), Chain: make([]int, len(in.Clients))}
+	for i := range crash.Allow {
+		crash.Allow[i] = make([]int, len(in.Clients))
+		for j := range crash.Allow[i] {
+			crash.Allow[i][j] = 2
+		}
+	}
+	for j := range crash.Chain {
+		crash.Chain[j] = 2
+	}
+	out.w.Flush()
+	off, err := out.f.Seek(0, io.SeekEnd)
+	if err != nil {
+		panic(err)
+	}
+	c.In, c.Obs = in, crash
+	b, err := json.Marshal(c)
+	if err != nil {
+		panic(err)
+	}
+	out.f.Write(append(b, '\n'))
+	obs := c05Run(in)
+	if err := out.f.Truncate(off); err != nil {
+		panic(err)
+	}
+	c.Obs = obs
+	out.Emit(c)
 }
 
 func c05Run(in *c05In) (obs c05Obs) {
@@ -602,6 +639,8 @@ func c05Gen(r *vfRand, idx int, adv bool) c05In {
 
 func TestVerifC05(t *testing.T) {
 	logger.InitNop()
+	// a runaway recursion in the prefix trie must end the process quickly (see c05Guarded)
+	debug.SetMaxStack(64 << 20)
 	out := vfOpen(t)
 	defer out.Close()
 	for _, sc := range vfStored("ipf") {
@@ -609,8 +648,7 @@ func TestVerifC05(t *testing.T) {
 		if err := json.Unmarshal(sc.In, &in); err != nil {
 			t.Fatal(err)
 		}
-		obs := c05Run(&in)
-		out.Emit(vfCase{ID: sc.ID, Src: sc.Src, Grp: "ipf", In: in, Obs: obs})
+		c05Guarded(out, vfCase{ID: sc.ID, Src: sc.Src, Grp: "ipf"}, &in)
 	}
 	if vfReplayOnly() {
 		return
@@ -625,7 +663,6 @@ func TestVerifC05(t *testing.T) {
 	for i := 0; i < n; i++ {
 		r := root.Fork(i)
 		in := c05Gen(r, i, adv)
-		obs := c05Run(&in)
-		out.Emit(vfCase{ID: fmt.Sprintf("%s-ipf-%d", src, i), Src: src, Grp: "ipf", In: in, Obs: obs})
+		c05Guarded(out, vfCase{ID: fmt.Sprintf("%s-ipf-%d", src, i), Src: src, Grp: "ipf"}, &in)
 	}
 }
